@@ -750,13 +750,27 @@ def extra_obligations(tier):
     that is threaded and returned, str.lower an argument), and coqc re-checks C13/Translated.v (translated function =
     C13.Model.setitem for every key, value and mapping: same mapping afterwards, ValueError exactly when the model says
     so) against the fresh definition; the PyStr functions the translation is made of are compared with the interpreter's
-    own str methods and dict."""
+    own str methods and dict.
+    In addition (tools/py2coq_c13.py, C13/TranslatedMore.v): Headers.__getitem__, MutableHeaders.__delitem__,
+    MutableHeaders.append and the loop of Headers.__init__ are translated the same way (`self[k] = v` in append: the
+    freshly translated __setitem__; `k in self`: Mapping.__contains__ of the translated __getitem__) and coqc re-checks that
+    each equals getitem / delitem / append / hinit of C13.Model for every key, value and mapping, and that from the
+    TRANSLATED setitem / append / delitem a clean mapping stays clean and a raising operation changes nothing
+    (translated_ops_preserve_clean); C13/PyLib.v is compared with the interpreter's dict, for statement and
+    Mapping.__contains__.  A source the translator refuses is not applicable (None)."""
     import importlib.util
     import os
     spec = importlib.util.spec_from_file_location("py2coq", os.path.join(core.VERIF, "tools", "py2coq.py"))
     py2coq = importlib.util.module_from_spec(spec)
     spec.loader.exec_module(py2coq)
-    return py2coq.obligations(PID, core.REPO, core.VERIF)
+    spec = importlib.util.spec_from_file_location("py2coq_c13", os.path.join(core.VERIF, "tools", "py2coq_c13.py"))
+    more = importlib.util.module_from_spec(spec)
+    spec.loader.exec_module(more)
+    from concurrent.futures import ThreadPoolExecutor
+    with ThreadPoolExecutor(2) as ex:
+        a = ex.submit(py2coq.obligations, PID, core.REPO, core.VERIF)
+        b = ex.submit(more.obligations, core.REPO, core.VERIF)
+        return list(a.result()) + list(b.result())
 
 
 if __name__ == "__main__":
